@@ -409,3 +409,134 @@ def name_is(*suffixes):
 def name_re(rx):
     r = re.compile(rx)
     return lambda n: bool(r.search(n))
+
+
+# ------------------------------------------------------------------ value origins (path-rule vocabulary)
+def poll_locals(body):
+    """poll-result local -> Await, for every await of the body"""
+    if hasattr(body, "_poll_locals"):
+        return body._poll_locals
+    out = {}
+    for a in awaits(body):
+        for pb in a.poll_bbs:
+            t = body.term(pb)
+            on = t.get("on")
+            if on and not on["proj"]:
+                out[on["local"]] = a
+    body._poll_locals = out
+    return out
+
+
+def rv_origins(body, rv, bb, x, depth=0, _seen=None):
+    """origins of the value computed by an rvalue (see origins)"""
+    if _seen is None:
+        _seen = set()
+    out = []
+    pl = poll_locals(body)
+    if rv["k"] in ("use", "ref", "cast"):
+        o = rv.get("op")
+        p = rv.get("place") if rv["k"] == "ref" else (o["place"] if o and o["k"] in ("copy", "move") else None)
+        if p is None:
+            if o and o["k"] == "const":
+                out.append(("const", o["val"]))
+            return out
+        projs = [pr for pr in p["proj"] if pr["k"] != "deref"]
+        if not projs:
+            out += origins(body, p["local"], depth + 1, _seen)
+            return out
+        # (poll as Ready).0 -> the awaited value
+        if p["local"] in pl and len(projs) >= 2 and projs[0]["k"] == "downcast" and projs[0]["variant"] == "Ready":
+            a = pl[p["local"]]
+            rest = projs[2:]
+            base = ("await", a.callee, a.into_bb, a)
+            if rest:
+                out.append(("field", tuple(pr.get("name") or pr.get("variant") for pr in rest), (base,)))
+            else:
+                out.append(base)
+            return out
+        names = tuple(pr.get("name") or pr.get("variant") for pr in projs)
+        out.append(("field", names, tuple(origins(body, p["local"], depth + 1, _seen))))
+    elif rv["k"] == "unop" and rv["op"] == "Not":
+        l = operand_local(rv["a"])
+        if l is not None and not [pr for pr in rv["a"]["place"]["proj"] if pr["k"] != "deref"]:
+            out.append(("not", tuple(origins(body, l, depth + 1, _seen))))
+        elif l is not None:
+            names = tuple(pr.get("name") or pr.get("variant") for pr in rv["a"]["place"]["proj"] if pr["k"] != "deref")
+            out.append(("not", (("field", names, tuple(origins(body, l, depth + 1, _seen))),)))
+    elif rv["k"] == "binop":
+        def side(o):
+            if o["k"] == "const":
+                return (("const", o["val"]),)
+            projs = [pr for pr in o["place"]["proj"] if pr["k"] != "deref"]
+            if projs:
+                return (("field", tuple(pr.get("name") or pr.get("variant") for pr in projs), tuple(origins(body, o["place"]["local"], depth + 1, _seen))),)
+            return tuple(origins(body, o["place"]["local"], depth + 1, _seen))
+        out.append(("binop", rv["op"], side(rv["a"]), side(rv["b"])))
+    elif rv["k"] == "agg" and "adt" in rv:
+        out.append(("agg", rv["adt"], rv["variant"], bb, x))
+    elif rv["k"] == "discr":
+        out += [("discr-of",) + (o,) for o in origins(body, rv["place"]["local"], depth + 1, _seen)]
+    return out
+
+
+def origins(body, local, depth=0, _seen=None):
+    """where the value of a local comes from, following moves/copies/refs/casts:
+    ('await', callee base or None, into_bb, Await) | ('call', callee base, bb, term) | ('field', names, base origins) |
+    ('param', i) | ('const', val) | ('agg', adt, variant, bb, stmt) | ('not', origins) | ('binop', op, a origins, b origins)"""
+    if _seen is None:
+        _seen = set()
+    out = []
+    if local in _seen or depth > 12:
+        return out
+    _seen = _seen | {local}
+    if 1 <= local <= body.argc:
+        out.append(("param", local))
+    pl = poll_locals(body)
+    for kind, x, bb in body.prov.defs.get(local, ()):
+        if kind == "call":
+            out.append(("call", callee_base(x), bb, x))
+        elif kind == "assign":
+            out += rv_origins(body, x["rv"], bb, x, depth, _seen)
+    return out
+
+
+def origin_matches(orig, pred, through_fields=True, through_not=False):
+    """does any origin (recursively through field bases) satisfy pred?"""
+    for o in orig:
+        if pred(o):
+            return True
+        if through_fields and o[0] == "field" and origin_matches(o[2], pred, through_fields, through_not):
+            return True
+        if through_not and o[0] == "not" and origin_matches(o[1], pred, through_fields, through_not):
+            return True
+    return False
+
+
+def edge_origin(body, e):
+    """origins of the value a switch edge tests: for bool edges the switched local, for variant edges the `on` place"""
+    l = e.label
+    if not l:
+        return []
+    if l[0] == "bool" and l[2] is not None:
+        return origins(body, l[2])
+    if l[0] == "variant" and l[3]:
+        on = l[3]
+        projs = [pr for pr in on["proj"] if pr["k"] != "deref"]
+        base = origins(body, on["local"])
+        pl = poll_locals(body)
+        if on["local"] in pl and len(projs) >= 2 and projs[0]["k"] == "downcast" and projs[0]["variant"] == "Ready":
+            a = pl[on["local"]]
+            base = [("await", a.callee, a.into_bb, a)]
+            projs = projs[2:]
+        if projs:
+            return [("field", tuple(pr.get("name") or pr.get("variant") for pr in projs), tuple(base))]
+        return base
+    return []
+
+
+def is_await_of(pred):
+    return lambda o: o[0] == "await" and o[1] is not None and pred(o[1])
+
+
+def is_call_of(pred):
+    return lambda o: o[0] == "call" and pred(o[1])
